@@ -107,9 +107,9 @@ func (p *streamstatsProcessor) Process(iqr *iqr.IQR) (*iqr.IQR, error) {
 		knownValues[resultCol] = make([]sutils.CValueEnclosure, iqr.NumberOfRecords())
 	}
 
+	// currentBucketKey and currentIndex carry over from the previous batch: the
+	// stream does not restart at a batch boundary (Rewind resets them).
 	bucketKey := ""
-	p.currentBucketKey = bucketKey
-	p.currentIndex = 0
 
 	for i := 0; i < iqr.NumberOfRecords(); i++ {
 		record := make(map[string]interface{})
